@@ -23,6 +23,14 @@ import pyarrow as pa
 from hypothesis import strategies as st
 from pyarrow import ipc
 
+import sys
+from pathlib import Path
+
+try:  # resolve_external_location imports tenacity lazily; it is not installed here
+    import tenacity  # noqa: F401
+except ImportError:
+    sys.path.append(str(Path(__file__).resolve().parent.parent / "shims"))
+
 from lib import c09_ref as ref
 from lib.harness import Check, HarnessAbort, Outcome
 from vgi_rpc.http import http_connect, http_introspect, make_sync_client, make_wsgi_app
@@ -129,17 +137,23 @@ def _proto(version: str | None) -> type:
 _SERVERS: OrderedDict[str | None, tuple[RpcServer, Any]] = OrderedDict()
 
 
-def _service(version: str | None) -> tuple[RpcServer, Any]:
-    hit = _SERVERS.get(version)
+def _service(version: str | None, external: bool = False) -> tuple[RpcServer, Any]:
+    key: Any = (version, "ext") if external else version
+    hit = _SERVERS.get(key)
     if hit is not None:
-        _SERVERS.move_to_end(version)
+        _SERVERS.move_to_end(key)
         return hit
-    server = RpcServer(_proto(version), _Impl(), enable_describe=True, server_id="c09")
+    kw: dict[str, Any] = {}
+    if external:
+        from vgi_rpc.external import ExternalLocationConfig
+
+        kw["external_location"] = ExternalLocationConfig(storage=None, max_retries=0, retry_delay_seconds=0.0)
+    server = RpcServer(_proto(version), _Impl(), enable_describe=True, server_id="c09", **kw)
     app = make_wsgi_app(
         server, token_key=b"k" * 32, enable_landing_page=False, enable_describe_page=False, enable_not_found_page=False
     )
     hit = (server, app)
-    _SERVERS[version] = hit
+    _SERVERS[key] = hit
     if len(_SERVERS) > 160:
         _SERVERS.popitem(last=False)
     return hit
@@ -410,6 +424,82 @@ def run_raw(case: dict) -> Outcome:
         "socket": {"calls": sock["calls"], "error_kind": (sock["error"] or {}).get("kind")},
         "http": {"calls": http["calls"], "status": http["status"], "error_kind": (http["error"] or {}).get("kind")},
     }
+    return out
+
+
+# --------------------------------------------------------------------------- the version arrives through another channel
+
+_POINTER_URL = "https://c09.invalid/obj/0"
+
+
+def _channel_request(method: str, version: bytes, channel: str) -> tuple[bytes, bytes | None]:
+    """(request bytes, externally stored object or None).  The request batch's own custom_metadata never carries the
+    version; it rides in the IPC *schema* metadata, or in the metadata of the batch an external-location pointer
+    request points to.  Either way the request declares no version."""
+    md: dict[bytes, bytes] = {_KEY_METHOD: _METHOD_NAME[method].encode(), _KEY_REQV: b"1"}
+    batch = _params_batch(method, "ok")
+    buf = io.BytesIO()
+    if channel == "schema_md":
+        schema = batch.schema.with_metadata({_KEY_PROTOV: version})
+        with ipc.new_stream(buf, schema) as w:
+            w.write_batch(pa.RecordBatch.from_arrays(batch.columns, schema=schema), custom_metadata=pa.KeyValueMetadata(md))
+        return buf.getvalue(), None
+    # pointer request: zero rows of the parameter schema + vgi_rpc.location; the object holds the real batch
+    obj = io.BytesIO()
+    with ipc.new_stream(obj, batch.schema) as w:
+        w.write_batch(batch, custom_metadata=pa.KeyValueMetadata({_KEY_PROTOV: version, b"app.note": b"x"}))
+    md[b"vgi_rpc.location"] = _POINTER_URL.encode()
+    with ipc.new_stream(buf, batch.schema) as w:
+        w.write_batch(batch.slice(0, 0), custom_metadata=pa.KeyValueMetadata(md))
+    return buf.getvalue(), obj.getvalue()
+
+
+def run_channel(case: dict) -> Outcome:
+    """A value that WOULD be admitted, delivered anywhere but in the request batch's own metadata, is an absent
+    declaration: refused (declared server) exactly like a request without the key, on socket and HTTP alike."""
+    import vgi_rpc.external as ext_mod
+
+    out = Outcome()
+    server_v, method, channel = case["server"], case["method"], case["channel"]
+    value = (case["value"] or server_v or "1.0.0").encode()
+    data, obj = _channel_request(method, value, channel)
+    cls = ref.classify(server_v, None)
+    out.nontrivial = server_v is not None
+    out.label(f"channel={channel}", f"method={method}", "verdict=admit" if cls["admit"] else "verdict=refuse",
+              "value_would_be_admitted" if ref.classify(server_v, value)["admit"] else "value_refusable")
+    fake_case = {"server": server_v, "client": {"k": "absent"}, "method": method, "params": "ok"}
+
+    def fetch(url: str, config: Any = None, *, url_validator: Any = None) -> bytes:
+        if url != _POINTER_URL or obj is None:
+            raise OSError(f"no such object {url}")
+        return obj
+
+    old = ext_mod.fetch_url
+    ext_mod.fetch_url = fetch  # type: ignore[assignment]
+    try:
+        srv, app = _service(server_v, external=(channel == "pointer_payload"))
+        t = _MemTransport(data + (_TICKS if method == "stream" else b""))
+        _CALLS.clear()
+        try:
+            srv.serve_one(t)
+        except Exception as e:
+            sock = {"ok": False, "why": f"serve_one raised {type(e).__name__}: {e}", "error": None, "rows": []}
+        else:
+            sock = _decode_response(t.writer.getvalue())
+        sock["calls"], sock["status"] = list(_CALLS), None
+        name = _METHOD_NAME[method]
+        _CALLS.clear()
+        r = falcon.testing.TestClient(app).simulate_post(f"/{name}/init" if method == "stream" else f"/{name}", body=data,
+                                                         headers={"Content-Type": _ARROW_CT})
+        http = _decode_response(r.content)
+        http["calls"], http["status"] = list(_CALLS), r.status_code
+    finally:
+        ext_mod.fetch_url = old
+    for where, obs in (("socket", sock), ("http", http)):
+        before = len(out.violations)
+        _judge_raw(out, cls, fake_case, obs, where)
+        out.violations[before:] = [(f"channel/{channel}/{k}", f"{w} — version {value!r} delivered via {channel}, request batch metadata carries none")
+                                   for k, w in out.violations[before:]]
     return out
 
 
@@ -865,6 +955,15 @@ def _fuzz_case(draw: Any) -> dict:
 
 
 @st.composite
+def _channel_case(draw: Any) -> dict:
+    server = draw(st.one_of(st.none(), *([_server_version] * 9)))
+    how = draw(st.sampled_from(["same", "same", "same", "patch", "minor", "major"]))
+    value = None if server is None else _neighbour(server, how, draw(st.sampled_from([-1, 1, 2])), draw(_component))
+    return {"server": server, "value": value, "method": draw(st.sampled_from(["unary", "unary", "stream"])),
+            "channel": draw(st.sampled_from(["schema_md", "pointer_payload", "pointer_payload"]))}
+
+
+@st.composite
 def _connection_case(draw: Any) -> dict:
     server = draw(st.one_of(st.none(), *([_server_version] * 9)))
     pool = [_fuzz_client(draw, server) for _ in range(draw(st.sampled_from([1, 2, 2, 3])))]
@@ -940,3 +1039,4 @@ def main(chk: Check) -> None:
     chk.explore("fuzz", _fuzz_case(), run_raw, quick=3000, thorough=48000)
     chk.explore("client", _client_case(), run_client, quick=300, thorough=4800)
     chk.explore("connection", _connection_case(), run_connection, quick=400, thorough=8000)
+    chk.explore("channel", _channel_case(), run_channel, quick=200, thorough=3000)
